@@ -73,6 +73,7 @@ def make_cases(ctx):
             "hb_declared_longer", "hb_short_padding",
             "finished_post_handshake", "cr_to_server",
             "pha_bad_finished", "pha_bad_signature", "pha_no_verify",
+            "pha_scheme_not_advertised",
             "pha_replay_answer", "hb_not_negotiated", "ku_straddle"]
     for k in negs:
         for r in range(ctx.pick(2, 10)):
@@ -511,9 +512,32 @@ def run_pha_negative(ctx, cid, P):
             return []
         return None
     adv.Deviant(p.c, rw)
+    req_settings = None
+    if k == "pha_scheme_not_advertised":
+        # the request advertises SHA-256 schemes only; the client signs
+        # with a SHA-384 one all the same (it is made to believe that the
+        # request listed it, the request's bytes - and so the transcript -
+        # are untouched)
+        from tlslite.handshakesettings import HandshakeSettings
+        from tlslite.constants import SignatureScheme
+        req_settings = HandshakeSettings()
+        req_settings.rsaSigHashes = ["sha256"]
+        req_settings.ecdsaSigHashes = ["sha256"]
+        req_settings.more_sig_schemes = []
+        real_handle = p.c._handle_pha
+
+        def lying_handle(cert_request):
+            raw = cert_request.write()
+            cert_request.write = lambda: raw
+            cert_request.supported_signature_algs = [
+                SignatureScheme.rsa_pss_rsae_sha384,
+                SignatureScheme.ecdsa_secp384r1_sha384]
+            st["hit"] = True
+            return real_handle(cert_request)
+        p.c._handle_pha = lying_handle
 
     def sprog():
-        for r in p.s.request_post_handshake_auth():
+        for r in p.s.request_post_handshake_auth(req_settings):
             yield r
         r = yield from drive.aread(p.s, None, 0)
         return r
